@@ -4,11 +4,15 @@ pub mod c03;
 pub mod c04;
 pub mod c05;
 pub mod c06;
+pub mod c07;
+pub mod c08;
 pub mod c09;
 pub mod c10;
 pub mod c11;
 pub mod c14;
 pub mod c15;
+pub mod c17;
+pub mod c19;
 pub mod common;
 
 use crate::engine::{Check, Ctx, Report};
@@ -22,11 +26,15 @@ pub fn run(id: &str, ctx: &Ctx) -> Option<Report> {
         "C04" => c04::run(ctx),
         "C05" => c05::run(ctx),
         "C06" => c06::run(ctx),
+        "C07" => c07::run(ctx),
+        "C08" => c08::run(ctx),
         "C09" => c09::run(ctx),
         "C10" => c10::run(ctx),
         "C11" => c11::run(ctx),
         "C14" => c14::run(ctx),
         "C15" => c15::run(ctx),
+        "C17" => c17::run(ctx),
+        "C19" => c19::run(ctx),
         _ => return None,
     })
 }
@@ -39,11 +47,15 @@ pub fn replay(id: &str, stage: &str, case: &Value) -> Option<Check> {
         "C04" => c04::replay(stage, case),
         "C05" => c05::replay(stage, case),
         "C06" => c06::replay(stage, case),
+        "C07" => c07::replay(stage, case),
+        "C08" => c08::replay(stage, case),
         "C09" => c09::replay(stage, case),
         "C10" => c10::replay(stage, case),
         "C11" => c11::replay(stage, case),
         "C14" => c14::replay(stage, case),
         "C15" => c15::replay(stage, case),
+        "C17" => c17::replay(stage, case),
+        "C19" => c19::replay(stage, case),
         _ => return None,
     })
 }
